@@ -404,6 +404,40 @@ def _ext(tape, stack, cache):
         b'ext' + cache.get('sigfield1', b'')).digest()[:9]
 
 
+def judge_mixed_order_key(ctx, rng, j):
+    """an internal key that is ON the curve but not in the prime-order group
+    (an honest key plus a small-order point): the builders may refuse it; if
+    they build locks for it, the native and the non-native lock still agree
+    on the builders' own script-spend witness"""
+    functions, parsing, tools, _, _ = env.mods()
+    P = sigmsg.pubkey(rbytes(rng, 32))
+    tors = [t for t in SMALL_ORDER if E.decode(t) is not None
+            and E.encode(E.decode(t)) != E.encode(E.mul(0, E.G))]
+    if not tors:
+        return
+    K = E.encode(E.add(E.decode(P), E.decode(rng.choice(tors))))
+    script = tools.Script('', O('TRUE'))
+    ctx.evaluated()
+    try:
+        lock = bytes(tools.make_taproot_lock(K, script))
+        nn = bytes(tools.make_nonnative_taproot_lock(K, script))
+        w = bytes(tools.make_taproot_witness_scriptspend(K, script))
+    except BaseException:
+        ctx.count('mixed_order_key.builder_refuses')
+        return
+    ctx.count('mixed_order_key.locks_built')
+    a = run_auth([w, lock], {})
+    b = run_auth([w, nn], {})
+    if (a is True) != (b is True):
+        ctx.violation('native-nonnative-differ', 'internal key with a '
+                      'small-order component: the native lock and the '
+                      'non-native lock built for it give different verdicts '
+                      "on the builder's script-spend witness",
+                      dict(seed=b'', script=O('TRUE'), fields={}, allowed=0,
+                           lock=lock, kind='nn', witness=w, nonnative=nn),
+                      f'native={a!r}'[:60], f'nonnative={b!r}'[:60])
+
+
 def judge_empty_commitment(ctx, rng, j):
     """a lock committing to the EMPTY script: the pair (b'', P) recomputes to
     the root, but an empty script cannot be evaluated, so no witness opens the
@@ -456,6 +490,8 @@ def run_shard(spec, ctx):
             judge_lock(ctx, ctx.rng(j), j)
             if j % 16 == 3:
                 judge_empty_commitment(ctx, ctx.rng(('empty', j)), j)
+            if j % 16 == 7:
+                judge_mixed_order_key(ctx, ctx.rng(('mixed', j)), j)
         ctx.count('monitor.dispatches', Tr.total)
     finally:
         remove_tracer(saved)
